@@ -35,6 +35,8 @@ func (cw *c05World) reset() {
 func buildC05World(t testing.TB) *c05World {
 	w := newWorld(t, "srv/root")
 	w.File("ro.bin", 3000, 1)
+	w.File("f.bin", 5000, 1)
+	w.File("d2/a.txt", 10, 2)
 	w.File("game/PS3_GAME/USRDIR/eboot.bin", 2049, 2)
 	w.Data("game/PS3_GAME/PARAM.SFO", mkSFO([]sfoKV{{"TITLE_ID", "BLES01234"}}))
 	w.File("PS3ISO/g.iso", 8192, 4)
@@ -51,7 +53,7 @@ func c05Targets() []string {
 func TestC05(t *testing.T) {
 	r := NewReporter(t)
 	defer r.Done()
-	r.Rule("(a) writing disabled: all sequences of length <= depth over 5 mutating opcodes x 10 target kinds + non-mutating opcodes; oracle = refusal code + no mutating leaf filesystem operation + whole sentinel tree unchanged. (b) writing enabled: sequences over create/write(payload sizes 0..131073, chunkings)/delete/mkdir/rmdir on every target kind; oracle = model result codes + only the named target changes + uploaded bytes equal on disk and when read back. (d) two overlapping uploads / upload with download under every interleaving with <= 1 (quick) / 2 (thorough) preemptions: stored bytes exact. (c) library: every write-type call on every generated/decrypting view returns EPERM and changes nothing. distinct by (mode, executed request sequence)")
+	r.Rule("(a) writing disabled: all sequences of length <= depth over 5 mutating opcodes x 10 target kinds + non-mutating opcodes; oracle = refusal code + no mutating leaf filesystem operation + whole sentinel tree unchanged. (b) writing enabled: sequences over create/write(payload sizes 0..131073, chunkings)/delete/mkdir/rmdir on every target kind; oracle = model result codes + only the named target changes + uploaded bytes equal on disk and when read back. (e) the store failing (ENOSPC, EIO, partial write) at every write of a 70000-byte upload is reported truthfully. (d) two overlapping uploads / upload with download under every interleaving with <= 1 (quick) / 2 (thorough) preemptions: stored bytes exact. (c) library: every write-type call on every generated/decrypting view returns EPERM and changes nothing. distinct by (mode, executed request sequence)")
 	cw := buildC05World(t)
 	defer cw.w.Cleanup()
 	w := cw.w
@@ -310,6 +312,9 @@ func TestC05(t *testing.T) {
 			r.Violation("C05:lib:view-write-changed-tree", "write-type calls on views changed the tree: "+d, nil)
 		}
 	}
+	// ---------- (e) the store fails in the middle of an upload: the failure is reported (or the connection ends), never
+	// a success or a made-up byte count, and the following requests are still understood ----------
+	storeFailureFamily(t, r, w.Root, cw.reset, "C05")
 	// ---------- (d) uploads that overlap in time ----------
 	// "stores exactly the uploaded bytes" must hold whatever else the server is transferring meanwhile: every
 	// interleaving (bounded preemptions) of two uploads, and of an upload with a download, at connection and
